@@ -36,6 +36,14 @@ func canonBits(v float64) string {
 	}
 	return fbits(v)
 }
+
+// canonVal additionally identifies -0 with +0 (text exposition formats print both as "0")
+func canonVal(v float64) string {
+	if v == 0 {
+		return fbits(0)
+	}
+	return canonBits(v)
+}
 func fbitsList(vs []float64) string {
 	if len(vs) == 0 {
 		return "."
